@@ -462,15 +462,16 @@ func buildSpliceAPIAlloc(m *ref.Splice, noise uint32, alloc func([]byte) []byte)
 		}
 	case 0x06:
 		c := scte35.CreateTimeSignalCommand()
-		if nz(3) {
-			c.SetHasPTS(!m.TSHasPTS)
-		}
-		c.SetHasPTS(m.TSHasPTS)
+		// values first, presence flags last: whether a value setter also raises its flag is not stated
 		pts := gots.PTS(m.TSPTS)
 		if nz(4) {
 			pts |= 0xF << 33
 		}
 		c.SetPTS(pts)
+		if nz(3) {
+			c.SetHasPTS(!m.TSHasPTS)
+		}
+		c.SetHasPTS(m.TSHasPTS)
 		s.SetCommandInfo(c)
 	case 0x05:
 		i := m.Ins
@@ -488,6 +489,18 @@ func buildSpliceAPIAlloc(m *ref.Splice, noise uint32, alloc func([]byte) []byte)
 			c.SetIsProgramSplice(!i.Prog)
 		}
 		c.SetIsProgramSplice(i.Prog)
+		// values first, presence flags last (see time_signal)
+		pts := gots.PTS(i.PTS)
+		if nz(4) {
+			pts |= 0x5 << 33
+		}
+		c.SetPTS(pts)
+		dur := gots.PTS(i.Duration)
+		if nz(11) {
+			dur |= 0x3 << 33
+		}
+		c.SetDuration(dur)
+		c.SetIsAutoReturn(i.AutoReturn)
 		if nz(8) {
 			c.SetHasDuration(!i.Dur)
 		}
@@ -500,17 +513,6 @@ func buildSpliceAPIAlloc(m *ref.Splice, noise uint32, alloc func([]byte) []byte)
 			c.SetHasPTS(!i.HasPTS)
 		}
 		c.SetHasPTS(i.HasPTS)
-		pts := gots.PTS(i.PTS)
-		if nz(4) {
-			pts |= 0x5 << 33
-		}
-		c.SetPTS(pts)
-		c.SetIsAutoReturn(i.AutoReturn)
-		dur := gots.PTS(i.Duration)
-		if nz(11) {
-			dur |= 0x3 << 33
-		}
-		c.SetDuration(dur)
 		c.SetUniqueProgramId(i.UniqueID)
 		c.SetAvailNum(i.Avail)
 		c.SetAvailsExpected(i.Avails)
